@@ -257,7 +257,7 @@ func (p c08) checkText(unit int, rc Recipe, st State, text string, only int, mod
 					class := "declaration-inside-edited-attribute"
 					// narrow, known shape: the edited attribute's own declaration is offered
 					// because it has nested (element) declarations
-					for _, t := range abs {
+					for _, t := range append(append([]reference.Target{}, abs...), loc...) {
 						if t.RangePtr != nil && *t.RangePtr == attrRange && len(t.NestedTargets) > 0 {
 							class = "edited-attribute-itself-offered-because-it-has-nested-declarations"
 						}
